@@ -383,7 +383,7 @@ func genProg(t *rapid.T) ProgCase {
 	pol.Comments = vr.Want("cs-comment", pol.Comments)
 	pol.NoOddHex = vr.Off("cs-odd-hex")
 	pol.NoKeywordAtDelim = vr.Off("cs-keyword-at-delim")
-	pol.NoRawCRForLF = true // domain restriction, see NOTES.md
+	pol.NoRawCRForLF = true   // domain restriction, see NOTES.md
 	pol.NoCommentInRef = true // no references in content streams anyway
 	w := pdfsyn.NewWriter(pol, pdfsyn.Rapid(t))
 	if rapid.Bool().Draw(t, "leadingGap") {
